@@ -83,20 +83,26 @@ func execFiles(args []sx.Sexp) core.Result {
 		schedule = append(schedule, int(n))
 	}
 
-	dir, err := ioutil.TempDir("", "c13files")
-	if err != nil {
-		panic(err)
-	}
-	defer os.RemoveAll(dir)
-	if err := os.Mkdir(filepath.Join(dir, "types"), 0755); err != nil {
+	// the directory for this set of files: its content is a function of the names, so it is made once (atomically, per
+	// file) under the system temp directory and shared by every line and every harness process; nothing ever changes it
+	dir := filepath.Join(os.TempDir(), "verif-c13-files-"+strings.Join(files, ""))
+	if err := os.MkdirAll(filepath.Join(dir, "types"), 0755); err != nil {
 		panic(err)
 	}
 	paths := map[string]string{}
 	for i, n := range files {
 		p := filepath.Join(dir, "types", n+".pp")
 		paths[n] = p
-		if err := ioutil.WriteFile(p, []byte(fmt.Sprintf("type %s = Integer[%d,%d]\n", strings.ToUpper(n), i+1, i+1)), 0644); err != nil {
-			panic(err)
+		if _, err := os.Stat(p); err != nil {
+			tmp, err := ioutil.TempFile(filepath.Join(dir, "types"), ".tmp-")
+			if err != nil {
+				panic(err)
+			}
+			fmt.Fprintf(tmp, "type %s = Integer[%d,%d]\n", strings.ToUpper(n), i+1, i+1)
+			tmp.Close()
+			if err := os.Rename(tmp.Name(), p); err != nil {
+				panic(err)
+			}
 		}
 	}
 	fb := px.NewFileBasedLoader(px.NewParentedLoader(px.StaticLoader()), dir, "", px.PuppetDataTypePath)
